@@ -197,6 +197,21 @@ fn run(op: &str, a: &[&str]) -> String {
                 other => panic!("unknown parse api {}", other),
             }
         }
+        // numtr <u|i> <radix> <text>: num_traits::Num::from_str_radix (third_party/num_traits.rs), next to the inherent function
+        "numtr" => {
+            let radix = u32::from_str_radix(a[1], 16).unwrap();
+            let bytes = unhex(a[2]);
+            let s = std::str::from_utf8(&bytes).expect("case text must be UTF-8");
+            if a[0] == "u" {
+                let t = <UBig as num_traits::Num>::from_str_radix(s, radix).map(|v| format!("ok {}", hu(&v))).unwrap_or_else(perr);
+                let i = UBig::from_str_radix(s, radix).map(|v| format!("ok {}", hu(&v))).unwrap_or_else(perr);
+                if t == i { t } else { format!("ok trait-differs-from-inherent {} / {}", t.replace(' ', "_"), i.replace(' ', "_")) }
+            } else {
+                let t = <IBig as num_traits::Num>::from_str_radix(s, radix).map(|v| format!("ok {}", hi(&v))).unwrap_or_else(perr);
+                let i = IBig::from_str_radix(s, radix).map(|v| format!("ok {}", hi(&v))).unwrap_or_else(perr);
+                if t == i { t } else { format!("ok trait-differs-from-inherent {} / {}", t.replace(' ', "_"), i.replace(' ', "_")) }
+            }
+        }
         // print then parse again through the library (round trip), all in one radix
         "roundtrip" => {
             let radix = u32::from_str_radix(a[0], 16).unwrap();
@@ -255,6 +270,18 @@ fn run(op: &str, a: &[&str]) -> String {
     }
 }
 
+/// every `ok` answer carries the word size of the answering build (`wb=<bits>`): the oracle runs the word-level
+/// as-is models at exactly that size (CONFIGS default / w32).  Debug texts depend on the word size by design
+/// (all digits below a DOUBLE word): they are marked `dbg` so that the cross-configuration comparison skips them.
+fn run_wb(op: &str, a: &[&str]) -> String {
+    let s = run(op, a);
+    if s.starts_with("ok") {
+        format!("{}{} wb={}", s, if op == "dbg" { " dbg" } else { "" }, dashu_int::Word::BITS)
+    } else {
+        s
+    }
+}
+
 fn main() {
-    serve(run);
+    serve(run_wb);
 }
